@@ -322,3 +322,10 @@ def check(P: Project, R: Report) -> None:
     if not cf:
         R.ob("R4", "the envelope models deliver ids, methods and keys as written", True, rel, "", sample="R4 envelope model_config rewrites nothing")
 
+
+    # ------------------------------------------------------------------ R5: a well-formed line is not refused by the parser
+    from ..lift import lift
+
+    lift(P, R, "C02", {"R3"}, "R5",
+         "every well-formed line becomes a message: the parser the reader hands each decoded object to classifies the four JSON-RPC shapes by the presence of their members (the kind-table and presence obligations of C02-R3, read here for the clause 'the delivered sequence equals the sequence of well-formed lines the child wrote')",
+         "parser: ", min_n=4, suffix=" — the reader logs the refusal and drops the line, so the delivered sequence is missing a message the child wrote")
